@@ -454,6 +454,54 @@ def p_debug(wd, arg):
     return []
 
 
+def p_cli_vs_option_arg(wd, arg):
+    """options that take a value: the same scanner (and header), byte for byte, from the command line and from %option"""
+    name, value, need, cli = arg
+    t_opt = spec((need + " " + (name + ('="%s"' % value if value is not None else ""))).strip())
+    t_cli = spec(need)
+    outs = []
+    for tag, text, args in (("o", t_opt, []), ("c", t_cli, cli)):
+        d = os.path.join(wd, tag)
+        os.makedirs(d)
+        with open(os.path.join(d, "p.l"), "w") as f:
+            f.write(text)
+        rc, out, err = run([_FLEX] + args + ["-o", "p.out", "p.l"], cwd=d, timeout=60)
+        if rc != 0:
+            outs.append((rc, err.decode(errors="replace")[:150], {}))
+            continue
+        files = {}
+        for fn in sorted(os.listdir(d)):
+            if fn != "p.l":
+                files[fn] = open(os.path.join(d, fn), "rb").read()
+        outs.append((0, "", files))
+    (rc1, e1, f1), (rc2, e2, f2) = outs
+    if rc1 != rc2:
+        return ["%%option %s exits %s, %s exits %s (%s | %s)" % (name, rc1, " ".join(cli), rc2, e1, e2)]
+    if rc1 != 0:
+        return []
+    if sorted(f1) != sorted(f2):
+        return ["%%option %s writes %s, %s writes %s" % (name, sorted(f1), " ".join(cli), sorted(f2))]
+    probs = []
+    for fn in f1:
+        probs += _same(f1[fn], f2[fn], "%s: %%option %s and %s generate different files" % (fn, name, " ".join(cli)))
+    return probs
+
+
+def p_define(wd, _):
+    """-Dmacro[=defn]: '#define macro defn' (defn is 1 when not given) reaches the scanner"""
+    text = spec(top="%{\n#include <stdio.h>\n%}", sect3='int main(void) {\n#if defined(FOO) && defined(BAR)\n printf("%d %d\\n", FOO, BAR);\n#else\n printf("undefined\\n");\n#endif\n return 0; }')
+    rc, err = flex(wd, text, ["-DFOO=42", "-DBAR"])
+    if rc != 0:
+        return ["flex -DFOO=42 -DBAR exits %s: %s" % (rc, err[:150])]
+    rc, e = cc(wd, ["p.c"])
+    if rc != 0:
+        return ["the scanner generated with -D does not compile: " + e[:200]]
+    rc, out, err = run([os.path.join(wd, "p.exe")], cwd=wd, timeout=20)
+    if out.decode(errors="replace").strip() != "42 1":
+        return ["-DFOO=42 -DBAR: the scanner sees %r, the manual says FOO is 42 and BAR is 1" % out.decode(errors="replace").strip()[:60]]
+    return []
+
+
 def p_cli_vs_option(wd, arg):
     """the same scanner, byte for byte, from --name and from %option name"""
     name, need = arg
@@ -504,6 +552,13 @@ PROBES = [("nodefault", p_nodefault, [(b, h) for b in ("nr", "r", "c99", "cxx") 
           ("splices", p_splices, ["nr", "r"]), ("post-action", p_post_action, [None]), ("user-routines", p_user_routines, ["nr", "r", "c99"]),
           ("header-file", p_header, ["nr", "r"]), ("bison", p_bison, ["bridge", "locations"]), ("contradictions", p_contradictions, [None]),
           ("debug-trace", p_debug, [(b, h, n) for b in ("nr", "r") for h in ("opt", "cli") for n in (0, 2)]),
+          ("valued-options", p_cli_vs_option_arg, [("bison-locations", None, "reentrant bison-bridge", ["--bison-locations"]),
+                                                   ("emit", "c99", "", ["--emit=c99"]), ("emit", "c99", "", ["-e", "c99"]),
+                                                   ("yyclass", "Foo", "c++", ["--yyclass=Foo"]),
+                                                   ("prefix", "zz", "", ["--prefix=zz"]), ("prefix", "zz", "", ["-Pzz"]),
+                                                   ("tables-file", "t.tbl", "", ["--tables-file=t.tbl"]),
+                                                   ("header-file", "h.h", "", ["--header-file=h.h"])]),
+          ("define", p_define, [None]),
           ("directives", p_directives, ["array", "pointer", "lex-sizes", "default-name", "default-name-prefix", "default-name-prefix-opt",
                                         "default-name-cxx", "flex++", "outfile-opt"])]
 
